@@ -68,6 +68,8 @@ func (e *Exec) VerifyLemma(l *Lemma, ctxPkg *types.Package) (err error) {
 			for _, c := range comps {
 				e.havoc(env.st, c.name, c.sort)
 			}
+		case "establish":
+			e.lemmaEstablish(name, step, env)
 		case "mark":
 			// old() refers to the state at the most recent mark
 			env.old = env.st.clone()
@@ -173,6 +175,85 @@ func (e *Exec) lemmaCall(step LemmaStep, env *Env) {
 	}
 	if resName != "" {
 		env.vars[resName] = res
+	}
+}
+
+// lemmaEstablish: "establish <method key>(<receiver expr>)" — every precondition conjunct of the method that speaks
+// about the receiver alone (no other parameter, no ghost state) becomes an obligation for the given receiver value:
+// the object invariant that the other units assume "at the interface" is what the constructor hands out.
+func (e *Exec) lemmaEstablish(lname string, step LemmaStep, env *Env) {
+	text := step.Text
+	open := strings.LastIndex(text, "(")
+	if open < 0 || !strings.HasSuffix(text, ")") {
+		e.unsupported("%s: establish key(receiver)", step.C.Src)
+	}
+	key := strings.TrimSpace(text[:open])
+	ctr := e.P.Spec.Contracts[key]
+	fn := e.P.FindFunc(key)
+	if ctr == nil || fn == nil || fn.Signature.Recv() == nil {
+		e.unsupported("%s: establish needs a contracted method, got %q", step.C.Src, key)
+	}
+	x, err := ParseExpr(text[open+1 : len(text)-1])
+	if err != nil {
+		e.unsupported("%s: %v", step.C.Src, err)
+	}
+	recv := e.evalSpec(x, env)
+	names := []string{fn.Signature.Recv().Name()}
+	for i := 0; i < fn.Signature.Params().Len(); i++ {
+		names = append(names, fn.Signature.Params().At(i).Name())
+	}
+	if len(ctr.Params) > 0 {
+		names = ctr.Params
+	}
+	var home *types.Package
+	if pk := e.P.ByPath[ctr.Pkg]; pk != nil {
+		home = pk.Types
+	}
+	cenv := &Env{e: e, vars: map[string]Val{names[0]: recv}, st: env.st, old: env.st, home: home}
+	short := key
+	if i := strings.LastIndex(short, "."); i >= 0 {
+		short = short[i+1:]
+	}
+	n := 0
+	for _, c := range ctr.Requires {
+		var conj []Expr
+		var split func(x Expr)
+		split = func(x Expr) {
+			if b, ok := x.(EBinary); ok && b.Op == "&&" {
+				split(b.X)
+				split(b.Y)
+				return
+			}
+			conj = append(conj, x)
+		}
+		split(c.E)
+		for _, cx := range conj {
+			only := true
+			for _, pn := range names[1:] {
+				if mentions(cx, pn) {
+					only = false
+				}
+			}
+			for g := range e.P.Spec.Ghosts {
+				if mentions(cx, g) {
+					only = false
+				}
+			}
+			if !only || !mentions(cx, names[0]) {
+				continue
+			}
+			n++
+			d := c
+			d.E = cx
+			d.Text = ExprString(cx)
+			t := e.evalBool(d, cenv)
+			label := fmt.Sprintf("%s:%s#%d", short, c.Label, n)
+			e.Out.AddObl(&Obligation{Name: lname + "/establish:" + label, Func: lname, Kind: "lemma", Label: label, Text: "receiver precondition of " + key + ": " + d.Text, Src: step.C.Src, Formula: t, Inputs: e.obsOnly(), Obs: e.lastObs})
+			e.P.Trusted["receiver invariant proved for the value the constructor returns ("+lname+"): "+key+": "+d.Text] = true
+		}
+	}
+	if n == 0 {
+		e.unsupported("%s: %s has no receiver-only precondition", step.C.Src, key)
 	}
 }
 
